@@ -150,6 +150,11 @@ package cache
 //@                     !old(apply(fs.options.RetainData, name, knownInfo(fs, name))), f == old(srcOpenF(world(), fs, name)) && err == nil && completeSame(fs))
 //@   ensures "gate" [C04 C05] implies(!VP(name) && !old(known(fs, name)), f == nil && errIs(err, hackpadfs.ErrInvalid) && world() == old(world()) && completeSame(fs) && infoSame(fs))
 //@   tracks copyFile
+//@   tracks SeekFile
+//@   tracks Open
+//@   ensures "served-after-the-copy" [C10 C11] implies(called("SeekFile"), ite(result("SeekFile", 1) == nil, err == nil && f != nil,
+//@                     f == result("Open", 0) && err == result("Open", 1)))   // after a completed copy: the rewound source handle, or - if it cannot be rewound - whatever opening the copy in the cache store gives, error included (found by the mutation sweep)
+//@   ensures "open-result-passed-on" [C10] implies(!called("copyFile") && called("Open") && !(old(known(fs, name)) && old(infoDir(world(), knownInfo(fs, name)))), err == result("Open", 1) && implies(err == nil, f == result("Open", 0)))   // without a copy the caller gets the handle and the error of the last Open made (cache store, or source)
 //@   ensures "others-kept" [C11] completeOthersSame(fs, name) && implies(old(complete(fs, name)) && !called("copyFile"), complete(fs, name))
 //@   ensures "complete-means-the-last-copy-succeeded" [C11] implies(called("copyFile") && complete(fs, name), result("copyFile", 0) == nil)   // also for a re-fill of a name whose cached file vanished
 //@   nopanic
